@@ -9,12 +9,13 @@ Open Scope Q_scope.
 Lemma Q_order_ok : order_ok Qle_bool Qeq_bool.
 Proof.
   constructor.
-  - intro a. apply Qeq_bool_iff. reflexivity.
-  - intros a b H. apply Qeq_bool_iff. apply Qeq_bool_iff in H. symmetry. exact H.
-  - intros a b c H1 H2. apply Qeq_bool_iff. apply Qeq_bool_iff in H1, H2. rewrite H1. exact H2.
-  - intros a b. destruct (Qlt_le_dec a b) as [H|H]; [left; apply Qle_bool_iff, Qlt_le_weak; exact H | right; apply Qle_bool_iff; exact H].
-  - intros a b c H1 H2. apply Qle_bool_iff. apply Qle_bool_iff in H1, H2. apply (Qle_trans _ _ _ H1 H2).
-  - intros a b H1 H2. apply Qeq_bool_iff. apply Qle_bool_iff in H1, H2. apply Qle_antisym; assumption.
+  - intros a _. apply Qeq_bool_iff. reflexivity.
+  - intros a b _ _ H. apply Qeq_bool_iff. apply Qeq_bool_iff in H. symmetry. exact H.
+  - intros a b c _ _ _ H1 H2. apply Qeq_bool_iff. apply Qeq_bool_iff in H1, H2. rewrite H1. exact H2.
+  - intros a b _ _. destruct (Qlt_le_dec a b) as [H|H]; [left; apply Qle_bool_iff, Qlt_le_weak; exact H | right; apply Qle_bool_iff; exact H].
+  - intros a b c _ _ _ H1 H2. apply Qle_bool_iff. apply Qle_bool_iff in H1, H2. apply (Qle_trans _ _ _ H1 H2).
+  - intros a b _ _ H1 H2. apply Qeq_bool_iff. apply Qle_bool_iff in H1, H2. apply Qle_antisym; assumption.
+  - reflexivity.
 Qed.
 
 (* ---------- sums ---------- *)
@@ -170,7 +171,7 @@ Theorem linear_trend (interp : list Q -> list Q -> Q -> option Q) assign templat
   exists v y, num_of inject_Z qv = Some v /\ get p r = Some (TF y) /\ y == a * v + b.
 Proof.
   intros Ex W O H K D Ip NE Lin.
-  destruct (per_leaf Qle_bool Qeq_bool inject_Z interp TF Q_order_ok assign template rest q qv r W O H ks K D) as [v [Hv L]].
+  destruct (per_leaf Qle_bool Qeq_bool inject_Z interp TF everything Q_order_ok assign template rest q qv r W O H ks K (allgood_everything ks) D) as [v [Hv L]].
   destruct (L p Ip NE) as [y [ys [G [Iy F]]]]. exists v, y. repeat split; auto.
   apply (Ex (sort_keys Qle_bool ks) ys a b v y); [|exact Iy].
   eapply Forall2_impl_in; [|exact F]. intros x y' _ [inst [Ii [A Va]]]. apply (Lin inst x y' Ii A Va).
